@@ -286,10 +286,12 @@ func init() {
 			// generateJoinCode: 8 arbitrary bytes (its alphabet mapping is irrelevant to the store's bookkeeping and
 			// turns every code comparison into 8 nested 32-way ite chains)
 			st.Stubs[repoModule+"/internal/session.generateJoinCode"] = func(it *Interp, fn *ssa.Function, a []Value) Value {
-				b := make([]*Term, 8)
+				// recorded as inputs joincode<k> so that the native replay can script crypto/rand with them:
+				// each byte is an index into the 32-letter alphabet (injective, as chars[b%32] is on 0..31)
 				it.names["joincode"]++
+				b := it.InBytes(fmt.Sprintf("joincode%d", it.names["joincode"]), 8)
 				for i := range b {
-					b[i] = it.ctx.Var(fmt.Sprintf("code%d[%d]", it.names["joincode"], i), SBV(8))
+					it.Assume(it.ctx.ULT(b[i], it.ctx.BV(32, 8)))
 				}
 				return &StrV{b}
 			}
@@ -346,15 +348,20 @@ func init() {
 			}
 			ds := hj("C15.datastream", "H_C15_datastream", "arbitrary bytes on the data stream of the real receiver (symbolic threads)")
 			fr := hj("C15.frame", "H_C15_frame", "one arbitrary frame for the announced file, chunk size 4 or 0, one preemption of the main loop at a select")
-			for _, j := range []*Job{ds, fr} {
+			fs := hj("C15.frame-stray", "H_C15_frame_stray", "an arbitrary frame for an unknown key or a late one for the complete file, one preemption at a select")
+			if tier == "thorough" {
+				fr = hj("C15.frame", "H_C15_frame_deep", "one arbitrary frame for the announced file of 0,1,4,5 bytes, chunk size 4 or 0, resume on/off, one preemption of the main loop at a select")
+				fs = hj("C15.frame-stray", "H_C15_frame_stray_resume", "as quick with resume on, files of 1 and 5 bytes")
+			}
+			for _, j := range []*Job{ds, fr, fs} {
 				j.Threads = true
 				j.TimersNeverFire = true
 				j.EagerCalls = []string{"writeFileDone", "hashFileChunk"}
 				j.MaxPaths = 5000000
 			}
-			fr.Preempt = 1
-			fr.PreemptAt = "select"
-			js = append(js, ds, fr)
+			fr.Preempt, fs.Preempt = 1, 1
+			fr.PreemptAt, fs.PreemptAt = "select", "select"
+			js = append(js, ds, fr, fs)
 			for _, j := range js {
 				j.AllocLimit = 64<<20 + 2*48
 				j.Workers = 6
@@ -577,6 +584,16 @@ func init() {
 			}
 			pl.Workers = 8
 			js = append(js, pl)
+			se := hj("C17.sender-end", "H_C17_sender_end", "real sender, one file of two chunks on two data streams (two workers): FileEnd after every chunk is written")
+			se.Threads, se.Workers, se.MaxPaths = true, 16, 5000000
+			se.TimerBudget = 1
+			se.CanonicalBlock, se.Preempt = true, 1
+			se.BlockedOK = true // an idle worker polls every 200 ms; with one timer event per path the poll cannot be modelled faithfully. Hangs of the sender are C02's subject
+			if tier == "thorough" {
+				se.Preempt = 2
+			}
+			se.Stubs = map[string]interceptFn{repoModule + "/internal/transfer.readAtWithPool": stubReadAtDirect}
+			js = append(js, se)
 			return js
 		},
 	})
